@@ -645,10 +645,10 @@ handback(Ctx &c, Task &t, IMB_JOB *r, const char *via)
                                 }
                                 for (size_t i = 0; i < got.size(); i++) {
                                         uint8_t m = 0xFF;
-                                        if (masked && i == 0)
-                                                m &= ro.dst_mask_first;
                                         if (masked && i + 1 == got.size())
                                                 m &= ro.dst_mask_last;
+                                        if (masked && i < ro.dst_mask.size())
+                                                m &= ro.dst_mask[i];
                                         if ((got[i] ^ exp[i]) & m) {
                                                 snprintf(b, sizeof b, "%s byte %zu of %zu: library %02x, reference %02x", n, i,
                                                          got.size(), got[i], exp[i]);
